@@ -111,4 +111,12 @@ func registerProps() {
 		Rule:   "each run = 1-3 sessions with a host and 0-3 receivers each (some reconnecting with a duplicate peer id), every client a scripted raw WebSocket connection that sends addressed, broadcast, spoofed-from, foreign-session-id, malformed and id-less messages (each valid one with a unique token), sleeps, stalls its inbound path, closes or resets; at most ~100 messages per recipient; all against the real server main over SimTCP under a seeded schedule; non-trivial = more than 50 scheduling steps, distinct by decision-log hash",
 		Real: t3Real, Stub: append([]string{"clients: scripted raw gorilla connections (wsclient runs in C16)"}, t3Stub...), Assume: append([]string{"must-deliver is asserted only for a recipient that had received its peer_list before the message was sent, kept its connection to the end, has a peer id unique in its session, and whose author also stayed connected; everything else is 'may'"}, t3Assume...),
 	})
+	reg(&propDef{
+		ID: "C09", Pkg: "internal/app", Level: "exploration", Unscheduled: true, Env: []string{"GOMAXPROCS=1", "GODEBUG=asyncpreemptoff=1"},
+		Quick: 1200, Thorough: 40000, QuickWall: 6 * time.Minute, ThorWall: 40 * time.Minute,
+		Rule:   "each run = one listener reachable through 1-4 candidate paths (alias addresses with their own up/down latency 1-100 ms - a third of the extra paths get the same round trip as the first, split differently -, optional loss 2-30 % and blackholing), candidate list optionally with a duplicate, a turn:-prefixed alias and unroutable entries; the real Prober.ProbeAndDial and real quic-go/TLS run over SimUDP on the fake clock, followed by the real authenticateTransport on both committed ends; non-trivial = more than one path; distinct by (seed, observed outcome)",
+		Real:   []string{"internal/ice.Prober.ProbeAndDial", "quic-go v0.58.0, crypto/tls (real, not instrumented)", "internal/transferquic, internal/quictransport configs", "internal/app.authenticateTransport with the real TLS exporter"},
+		Stub:   []string{"UDP: SimUDP (timer-driven delivery on the fake clock; per-path NAT-like source addresses)", "accepting side: transcription of snapshotReceiver.runTransfer's acceptOnce (first accepted connection is primary) - the real function cannot run in the simulator", "ice.NewProber, STUN, TURN: not run (candidate lists are supplied by the harness)"},
+		Assume: []string{"no scheduler is installed in this tier: interleavings come from latencies/loss; replay reproduces the outcome (path choices, auth results), not a decision log", "the receiver's own delayed dial-back (500 ms) is not modelled"},
+	})
 }
